@@ -90,7 +90,7 @@ theorem quat_cast_mat3_cast {K : Type} [Field K] [LinearOrder K] [IsStrictOrdere
 
 /-- non-vacuity -/
 example : (lookup "mat3ofprod" [1]).nIn = 8 ∧ (lookup "mat3ofprod" [1]).outs.length = 9 ∧
-    f_euler3.keys.length = 12 ∧ families.length = 31 := by decide +kernel
+    f_euler3.keys.length = 12 ∧ families.length = 32 := by decide +kernel
 
 /-- **walk-mode families** (the code asks its questions in another order, or uses other but equivalent comparisons, than the
 specification tree): for every input the traced tree and the specification tree evaluate alike, in every ordered field —
